@@ -64,6 +64,19 @@ Theorem C14_equiv : forall k es lim pas ch,
 Proof. exact c14_equiv. Qed.
 Print Assumptions C14_equiv.
 
+(* A file without entries (only header or blank lines, or nothing) is outside the quantifier of
+   the property (how it is rejected is C13's); the model of the current code says that both paths
+   of every kind deliver nothing and fail with "no ammo" (wrapped by loadAmmo for the array form
+   with preload), sink closed — so they also end the same way. (A jsonline stream file without
+   any JSON value never gets that far: the constructor refuses it, [constructor_refuses].) *)
+Theorem C14_empty_file : forall k preload lim pas ch fuel,
+  3 <= fuel ->
+  let x := deliver k preload (cfgc lim pas ch) [] None fuel in
+  delivered x = [] /\ closed x = true
+  /\ (out x = Failed ENoAmmo \/ out x = Failed (ELoad ENoAmmo)).
+Proof. exact deliver_empty_file. Qed.
+Print Assumptions C14_empty_file.
+
 (* Non-vacuity. DESIGN.md section 6 #21: /a y, /b x, /c x, chosen x, limit 2 delivers /b /c on
    both paths (y = tag 1, x = tag 2); interleaved tags stay in file order whatever the order in
    which they are listed; a filter matching nothing ends with "no ammo" on both paths. *)
